@@ -206,31 +206,28 @@ def exitStep (s : St) (fr : Frame) (rest : List Frame) (o : Outcome) : St :=
     match o with
     | .done =>
       -- unhandled_done: the frame stays allocated; the parent's done continuation runs next
-      let s1 := { s with frames := rest, zombies := s.zombies ++ [fr] }
-      match rest with
-      | [] => rootDone s1 .done
-      | _ :: _ => s1
+      { s with frames := rest, zombies := s.zombies ++ [fr] }
     | _ =>
       -- the awaiting coroutine resumes; its await_resume destroys this frame, then yields o
-      let s1 := emit { s with frames := rest, gone := s.gone ++ [fr] } (.frameDead fr.id)
-      match rest with
-      | [] => rootDone s1 o
-      | _ :: _ => { s1 with ctl := .resume o }
+      { emit { s with frames := rest, gone := s.gone ++ [fr] } (.frameDead fr.id) with ctl := .resume o }
 
-/-- ONE internal transition -/
+/-- ONE internal transition.  With no frame left, the awaiting coroutine is the stop-request thunk
+    (then connect_awaitable's coroutine, which completes the receiver). -/
 def step (s : St) : St :=
   match s.ctl, s.frames with
   | .exec, fr :: rest => execStep specs s fr rest
   | .resume o, fr :: rest => resumeStep s fr rest o
   | .exit o, fr :: rest => exitStep specs s fr rest o
+  | .resume o, [] => rootDone s o
+  | .exit o, [] => rootDone s o
   | _, _ => s
 
 /-- quiescent: nothing happens until the next external event -/
 def St.halted (s : St) : Bool :=
   match s.ctl, s.frames with
   | .exec, _ :: _ => false
-  | .resume _, _ :: _ => false
-  | .exit _, _ :: _ => false
+  | .resume _, _ => false
+  | .exit _, _ => false
   | _, _ => true
 
 def run : Nat → St → St
@@ -242,6 +239,7 @@ def run : Nat → St → St
 mutual
 def Stmt.size : Stmt → Nat
   | .awaitTask p _ => progSize p + 3
+  | .atExit _ _ => 2
   | _ => 1
 def progSize : List Stmt → Nat
   | [] => 0
@@ -317,7 +315,8 @@ def onStart (s : St) : St :=
 def onRun (s : St) : St :=
   match s.queue with
   | [] => s
-  | .hop o :: q => settle specs { s with queue := q, ctl := .resume o }
+  | .hop o :: q =>
+    if s.ctl = .waitHop then settle specs { s with queue := q, ctl := .resume o } else { s with queue := q }
   | .stopReq :: q => stopOpDone (settle specs (deliverStop specs { s with queue := q }))
 
 def onComplete (s : St) (i : Nat) (o : Outcome) : St :=
@@ -339,7 +338,9 @@ def destroyFrames (s : St) : List Frame → St
 
 /-- the operation state is destroyed: every frame still allocated is destroyed, innermost first -/
 def onDestroy (s : St) : St :=
-  destroyFrames { s with frames := [], zombies := [] } (s.zombies ++ s.frames)
+  if s.ctl = .finished ∨ s.ctl = .idle then
+    destroyFrames { s with frames := [], zombies := [] } (s.zombies ++ s.frames)
+  else s   -- destroying a running operation is outside the sender contract
 
 /-- is the event meaningful in this state?  (the harness prints `!!bad-op` otherwise) -/
 def evOk (s : St) : Ev → Bool
@@ -351,7 +352,7 @@ def evOk (s : St) : Ev → Bool
     | .waitLeaf j => i = j
     | .waitCleanup j _ => i = j
     | _ => false
-  | .destroy => true
+  | .destroy => s.ctl = .finished || s.ctl = .idle
 
 /-- ONE external event, processed to quiescence -/
 def deliver (ev : Ev) (s : St) : St :=
@@ -365,5 +366,83 @@ def deliver (ev : Ev) (s : St) : St :=
 def runEvents (s : St) : List Ev → St
   | [] => s
   | ev :: evs => runEvents (deliver specs ev s) evs
+
+end Unifex.Coro
+
+/-! ### Spec: what a program whose awaits all complete inline must do
+
+  `evalProg` is the denotational reading of a coroutine program: its outcome as a sender, and the
+  list of cleanup actions in the order in which they must run (children before parents, each frame's
+  own cleanups in reverse registration order).  `Props/C10.lean` proves that `deliver .start`
+  computes exactly this. -/
+
+namespace Unifex.Coro
+open Unifex.Calc (Outcome)
+
+variable (specs : Nat → LeafSpec)
+
+def leafOutcome (i : Nat) : Outcome :=
+  match (specs i).kind with
+  | .inline o => o
+  | .pending _ => .done
+
+/-- effect of one statement on the frame: the body continues, or it is over -/
+inductive SRes
+  | next (acc : Nat) (reg ran : List Nat)
+  | exit (o : Outcome) (ran : List Nat)
+
+/-- what `acc += co_await x` does with the result of x (`try_`: inside try/catch) -/
+def absorb (try_ : Bool) (acc : Nat) (reg ran : List Nat) : Outcome → SRes
+  | .value v => .next (acc + v) reg ran
+  | .error e => if try_ then .next (acc + catchVal e) reg ran else .exit (.error e) ran
+  | .done => .exit .done ran
+
+mutual
+/-- `reg`: cleanups registered by this frame so far (most recent first); `ran`: cleanups that have run so far -/
+def evalStmt (stopped : Bool) : Stmt → Nat → List Nat → List Nat → SRes
+  | .await i t, acc, reg, ran => absorb t acc reg ran (leafOutcome specs i)
+  | .awaitTask p t, acc, reg, ran =>
+    let r := evalFrame stopped p 0 [] ran
+    absorb t acc reg r.2 r.1
+  | .atExit a _, acc, reg, ran => .next acc (a :: reg) ran
+  | .ret v, acc, _, ran => .exit (.value (acc + v)) ran
+  | .throw_ e, _, _, ran => .exit (.error e) ran
+  | .stopIfRequested, acc, reg, ran => if stopped then .exit .done ran else .next acc reg ran
+/-- a frame running the statements `k`: its outcome, and all cleanups that have run when its parent
+    observes that outcome (its own registered cleanups last, most recent first) -/
+def evalFrame (stopped : Bool) : List Stmt → Nat → List Nat → List Nat → Outcome × List Nat
+  | [], acc, reg, ran => (.value acc, ran ++ reg)
+  | s :: k, acc, reg, ran =>
+    match evalStmt stopped s acc reg ran with
+    | .next acc' reg' ran' => evalFrame stopped k acc' reg' ran'
+    | .exit o ran' => (o, ran' ++ reg)
+end
+
+/-- outcome of the task as a sender, and the cleanup actions in the order they must run -/
+def evalProg (stopped : Bool) (p : Prog) : Outcome × List Nat := evalFrame specs stopped p 0 [] []
+
+def LeafKind.isInline : LeafKind → Bool
+  | .inline _ => true
+  | .pending _ => false
+
+def LeafKind.isInlineValue : LeafKind → Bool
+  | .inline (.value _) => true
+  | _ => false
+
+/-- a cleanup action that is synchronous or awaits a leaf completing inline with a value -/
+def cleanupSync (l : Nat) : Bool := l == 0 || (specs l).kind.isInlineValue
+
+mutual
+/-- every awaited leaf completes inside start() and comes straight back (affine sender or inline
+    scheduler); every cleanup is synchronous or awaits a leaf that completes inline with a value -/
+def Stmt.inline (inlineSched : Bool) : Stmt → Bool
+  | .await i _ => (specs i).kind.isInline && ((specs i).affine || inlineSched)
+  | .awaitTask p _ => progInline inlineSched p
+  | .atExit _ l => cleanupSync specs l
+  | _ => true
+def progInline (inlineSched : Bool) : List Stmt → Bool
+  | [] => true
+  | s :: k => s.inline inlineSched && progInline inlineSched k
+end
 
 end Unifex.Coro
